@@ -8,12 +8,14 @@ def run(ctx):
     W.wid2_dictionary_widths(ctx)
     M.tbl1_datasection_tags(ctx)
     M.lit1_null_patterns(ctx)
+    W.flt2_exact_narrowing_test(ctx)
+    M.nul1_null_map_never_ignored(ctx)
     return ctx.finish(
         'Syntax-tree rules over the column builders: in every narrow branch the range bound, the '
         'element type and the encoding tag agree (a tag that disagrees with the stored element type '
         'makes the decode program reinterpret the section), DataSection tags are the identity on the '
         'plain variants, compressor element widths match the variant, and the two reserved NULL '
-        'markers are defined consistently. These are necessary conditions of the round trip; the '
+        'markers are defined consistently; float sections are narrowed to f32 only behind an exact round-trip equality; a null map handed to the column builder is never ignored. These are necessary conditions of the round trip; the '
         'round trip itself (null bitmaps, type degradation, thresholds, delta/offset arithmetic, '
         'hex/dictionary/pco/lz4 content) quantifies over runtime values and is NOT decided.',
         trusted_base=['syn', 'astq extractor'])
